@@ -782,4 +782,101 @@ theorem rotation_solution (R : Finset (Fin m)) (hR : R.Nonempty) (uOri : Unk) (h
 
 end Rotation
 
+/-! ## translation, assembled (identical problem) -/
+
+/-- the translated description of one observation (observed coordinates are translated too) -/
+def trKind (tx ty tz : ℝ) (k : Kind) (o : Obs ℝ) : Obs ℝ :=
+  match k with
+  | .x => { trObs tx ty tz o with value := o.value + tx }
+  | .y => { trObs tx ty tz o with value := o.value + ty }
+  | .z => { trObs tx ty tz o with value := o.value + tz }
+  | _ => trObs tx ty tz o
+
+theorem lin_translation (tx ty tz : ℝ) (k : Kind) (fuel : Nat) (o : Obs ℝ) :
+    lin k fuel (trKind tx ty tz k o) = lin k fuel o := by
+  cases k
+  · exact direction_tr tx ty tz fuel o
+  · exact distance_tr tx ty tz fuel o
+  · exact angle_tr tx ty tz fuel o
+  · exact azimuth_tr tx ty tz fuel o
+  · exact s_distance_tr tx ty tz fuel o
+  · exact z_angle_tr tx ty tz fuel o
+  · exact h_diff_tr tx ty tz fuel o
+  · exact x_tr tx ty tz fuel o
+  · exact y_tr tx ty tz fuel o
+  · exact z_tr tx ty tz fuel o
+  · exact xdiff_tr tx ty tz fuel o
+  · exact ydiff_tr tx ty tz fuel o
+  · exact zdiff_tr tx ty tz fuel o
+
+/-- the whole translated pass linearises to exactly the same outputs: same design matrix, same
+    right-hand sides, hence the same least-squares problem -/
+theorem translation_pass {m : Nat} (tx ty tz : ℝ) (fuel : Nat) (rows : Fin m → GenRow) (outs : Fin m → LinOut ℝ) :
+    Linearises fuel (fun i => { rows i with o := trKind tx ty tz (rows i).kind (rows i).o }) outs ↔
+      Linearises fuel rows outs := by
+  unfold Linearises
+  simp only [lin_translation]
+
+/-! ## a concrete pass (non-vacuity of the assembled theorems) -/
+
+/-- a sight of 5 m observed without misclosure: the direction's right-hand side is 0 -/
+noncomputable def exactSight : Obs ℝ :=
+  { pfrom := ⟨0, 0, 0, .free, .free⟩, pto := ⟨3, 4, 0, .free, .free⟩, pfs := ⟨0, 0, 0, .unused, .unused⟩,
+    value := brg (3 - 0) (4 - 0), orientation := 0, xNorth := 0 }
+
+theorem exactSight_hdist : hdist exactSight = 5 := by
+  simp only [hdist, dX, dY, exactSight]
+  rw [show ((3:ℝ) - 0) * (3 - 0) + (4 - 0) * (4 - 0) = 5 * 5 by norm_num, Real.sqrt_mul_self (by norm_num)]
+
+theorem exactSight_guard : ¬ hdist exactSight < CUT := by rw [exactSight_hdist]; unfold CUT; norm_num
+
+theorem isWrapOf_zero {r : ℝ} (h : IsWrapOf 0 r) : r = 0 := by
+  obtain ⟨⟨k, hk⟩, hlo, hhi⟩ := h
+  have hF : FULL = 2 * HALF := by unfold FULL HALF; norm_num
+  have hH : (0 : ℝ) < HALF := by unfold HALF; norm_num
+  have : k = 0 := int_zero_of_abs_lt (by rw [hk] at hlo hhi; linarith) (by rw [hk] at hlo hhi; linarith)
+  rw [hk, this]; simp
+
+theorem exactSight_rhs (fuel : Nat) (out : LinOut ℝ) (hok : Gen.Lin.direction fuel exactSight = .ok out) :
+    out.rhs = 0 := by
+  have h := (direction_ok fuel exactSight out exactSight_guard hok).1
+  have e : (exactSight.value + exactSight.orientation - brg (dX exactSight) (dY exactSight)) * R2CC = 0 := by
+    simp [exactSight, dX, dY]
+  rw [e] at h
+  exact isWrapOf_zero h
+
+/-- point / stand-point numbers of the witness pass; the orientation unknown of the direction row is
+    `⟨10, ori⟩`, the distance row has no orientation unknown (its dummy is `⟨11, ori⟩`) -/
+def witnessName (st : Nat) : Role → Coord → Unk
+  | .pfrom, c => ⟨1, c⟩ | .pto, c => ⟨2, c⟩ | .pfs, c => ⟨3, c⟩ | .station, c => ⟨st, c⟩
+
+noncomputable def witnessRows : Fin 2 → GenRow :=
+  ![⟨.direction, exactSight, witnessName 10⟩, ⟨.distance, exactSight, witnessName 11⟩]
+
+theorem witness_guard : ∀ i, guard (witnessRows i).kind (witnessRows i).o := by
+  intro i; fin_cases i <;> exact exactSight_guard
+
+theorem witness_name : ∀ i r c, ((witnessRows i).name r c).c = c := by
+  intro i r c; fin_cases i <;> cases r <;> rfl
+
+/-- the witness pass linearises, and so do its mirrored and its turned description -/
+theorem witness_linearises : ∃ (fuel : Nat) (outs : Fin 2 → LinOut ℝ), Linearises fuel witnessRows outs ∧
+    (outs 0).rhs = 0 := by
+  obtain ⟨f, out, h⟩ := direction_terminates exactSight exactSight_guard
+  refine ⟨f, ![out, _], ?_, exactSight_rhs f out h⟩
+  intro i; fin_cases i
+  · exact h
+  · exact distance_eq f exactSight exactSight_guard
+
+theorem witness_mirror_linearises : ∃ (fuel : Nat) (outs : Fin 2 → LinOut ℝ),
+    Linearises fuel (fun i => mirRow (witnessRows i)) outs := by
+  have hg : ¬ hdist (negObs exactSight) < CUT := by
+    rw [show hdist (negObs exactSight) = hdist exactSight from hdist_flip _]; exact exactSight_guard
+  have hg2 : ¬ hdist (flipObs exactSight) < CUT := by rw [hdist_flip]; exact exactSight_guard
+  obtain ⟨f, out, h⟩ := direction_terminates (negObs exactSight) hg
+  refine ⟨f, ![out, _], ?_⟩
+  intro i; fin_cases i
+  · exact h
+  · exact distance_eq f (flipObs exactSight) hg2
+
 end Gama.Lin
